@@ -21,7 +21,7 @@ Design rules (why every program has a defined, panic-free Go execution)
   * calls with side effects occur only as whole statements (Go leaves the order of a variable read
     against a call in the same expression unspecified).
   * output only via println of integers, booleans, strings; floats as canonicalised bit patterns.
-  * the `safe` stream avoids the trigger predicates of known Wa defects (see FINDINGS.md); the
+  * the `safe` stream avoids the trigger predicates of known Wa defects (see gen/findings.py); the
     `probe` stream adds exactly one labelled group (`probe:<name>`) that exercises one of them.
 """
 import copy
@@ -261,6 +261,23 @@ class Program(object):
         for g in self.stmt_groups:
             f |= g.features
         return f
+
+    def op_stats(self):
+        """Counter of (operator template, result type) over every expression node of the program
+        (distribution evidence: which operator x type combinations a run exercised)."""
+        import collections
+        c = collections.Counter()
+
+        def walk(e):
+            if e.kids:
+                c[(re.sub(r'\{\d+\}', '_', e.fmt), e.ty)] += 1
+                for k in e.kids:
+                    walk(k)
+        for g in self.stmt_groups:
+            for st in _walk_stmts(g.stmts):
+                for e in st.exprs:
+                    walk(e)
+        return c
 
     def pool_print(self, tag):
         parts = []
@@ -589,7 +606,7 @@ class Gen(object):
         if k == 'fconv':
             a = self.nonconst(env, 'float64', self.float_expr(env, 'float64', depth - 1))
             self.feat.add('conv_float_int')
-            # float -> unsigned stays below 2^31 / 2^63: Wa truncates with the signed instruction (see FINDINGS)
+            # float -> unsigned stays below 2^31 / 2^63: Wa truncates with the signed instruction (see gen/findings.py)
             if t in ('uint8',):
                 return E(t, '%s(clampU({0}))' % t, [a])
             if t == 'int64' and self.chance(0.5):
@@ -1252,7 +1269,7 @@ class Gen(object):
             fe.add(t2, 'step')
             upd = self.nonconst(fe, t2, self.expr(fe, t2, 2))
             # (a func literal nested in a func literal and capturing the outer literal's locals makes the
-            #  Wa back end abort: the factory is a top-level function in the safe stream, see FINDINGS)
+            #  Wa back end abort: the factory is a top-level function in the safe stream, see gen/findings.py)
             mk = 'g%d%s' % (grp.idx, mk)
             grp.decls.append((mk, 'func %s(step %s) func() %s {\n\tvar c %s\n\treturn func() %s {\n\t\tc = %s\n\t\tc += step\n\t\treturn c\n\t}\n}'
                               % (mk, t2, t2, t2, t2, upd.render())))
@@ -1262,7 +1279,7 @@ class Gen(object):
                 w = self.pick([a, b])
                 r = self.fresh('r')
                 st.append(S(['%s := %s()' % (r, w), 'println("%s", %s)' % (w, r)]))
-        # 3) slice of closures built in a loop (copying the loop variable: see FINDINGS loopvar)
+        # 3) slice of closures built in a loop (copying the loop variable: see gen/findings.py #18)
         if self.chance(0.7):
             self.feat.add('closure_slice')
             t3 = self.scalar_type(floats=False)
@@ -1296,7 +1313,7 @@ class Gen(object):
         outf = self.struct_fields(self.rng.randint(1, 3))
         at = self.scalar_type(floats=False)
         alen = self.rng.randint(2, 4)
-        # (array / slice typed fields need a named type: `name [N]T` does not parse in WaGo mode, see FINDINGS)
+        # (array / slice typed fields need a named type: `name [N]T` does not parse in WaGo mode, see gen/findings.py)
         decl = ['type %s [%d]%s' % (Arr, alen, at), '', 'type %s struct {' % In]
         decl += ['\t%s %s' % f for f in inf] + ['}', '', 'type %s struct {' % Out, '\t%s' % In]
         decl += ['\tg%s %s' % (f[0][1:], f[1]) for f in outf] + ['\tin %s' % In, '\tarr %s' % Arr, '\tp *%s' % In, '}']
@@ -1683,7 +1700,7 @@ class Gen(object):
                 self.feat.add('compare_string')
                 self.feat.add('str_compare')
                 # ordering only between valid UTF-8 strings (Wa compares rune-wise and stops at an invalid
-                # byte: see FINDINGS); slices may split a sequence and are compared with == / != only
+                # byte: see gen/findings.py); slices may split a sequence and are compared with == / != only
                 o = self.str_expr(senv, 2)
                 st.append(S('println("cmp", %s == {0}, %s < {0}, %s >= {0}, %s != {0})' % (s, s, s, s), [o]))
                 self.slices_ok = True
@@ -1962,7 +1979,7 @@ class Gen(object):
             n, z = self.fresh('nm'), self.fresh('z')
             k = self.rng.randrange(len(order))
             tk = impls[order[k]][0]
-            # (Wa rejects the implicit interface-to-interface conversion `var n Namer = shape`: see FINDINGS)
+            # (Wa rejects the implicit interface-to-interface conversion `var n Namer = shape`: see gen/findings.py)
             st.append(S(['var %s %s = %s[%d].(%s)' % (n, N, sh, k, N), 'var %s %s' % (z, I), 'println("nil", %s == nil, %s != nil)' % (z, n),
                          '%s = %s.(%s)' % (z, n, I), 'println("conv", %s.Name(), %s == nil, %s.(*%s).Area({0}), %s == %s[%d])' % (n, z, z, tk, z, sh, k)],
                         [self.expr(env, rt, 1)]))
@@ -2027,7 +2044,7 @@ class Gen(object):
                          'println("%s", %s.v, %s.log)' % (f2, bx, bx)], [self.expr(env, t, 1), self.expr(env, t, 1)]))
 
     # ------------------------------------------------------------------------------------------
-    # probe stream: one labelled group per known defect trigger (see FINDINGS.md)
+    # probe stream: one labelled group per known defect trigger (see gen/findings.py)
 
     def g_probe(self, grp, env, which):
         P = 'g%d' % grp.idx
@@ -2048,8 +2065,8 @@ class Gen(object):
                 st.append(S(['%s, %s := %s(%d), %s(-1)' % (x, y, t, trange(t)[0], t), 'println("rem", %s %% %s)' % (x, y), 'println("quo", %s / %s)' % (x, y)]))
         elif w == 'map_delete_general':
             m = self.fresh('m')
-            n = self.rng.randint(5, 12)
-            d = self.rng.randint(1, n)
+            n = self.rng.randint(7, 14)
+            d = self.pick([4, 4, 2, 6, self.rng.randint(1, n)])     # 4 has two children for every n >= 7
             st.append(S(['%s := map[int32]int32{}' % m, 'for i := 1; i <= %d; i++ {' % n, '\t%s[int32(i)] = int32(i * 10)' % m, '}',
                          'delete(%s, %d)' % (m, d), 'for i := 0; i <= %d; i++ {' % (n + 1), '\tv, ok := %s[int32(i)]' % m, '\tprintln("probe-del", i, v, ok, len(%s))' % m, '}']))
             self.g_maps(grp, env, general_delete=True)
@@ -2143,7 +2160,7 @@ KINDS = {
 
 
 def _g_globals(self, grp, env):
-    """package-level variables and constants (int64 globals are initialised in main: see FINDINGS)."""
+    """package-level variables and constants (int64 globals are initialised in main: see gen/findings.py)."""
     P = 'G%d' % grp.idx
     st = grp.stmts
     self.feat |= {'globals', 'consts'}
@@ -2154,7 +2171,7 @@ def _g_globals(self, grp, env):
         n = '%sv%s' % (P, SHORT[t])
         init = self.lit(t)
         if t == 'uint64':
-            # a package-level uint64 initialised with a constant >= 2^63 reads as 0 in Wa (see FINDINGS)
+            # a package-level uint64 initialised with a constant >= 2^63 reads as 0 in Wa (see gen/findings.py)
             init = self.lit(t, self.rng.randint(0, (1 << 63) - 1))
         decl.append('var %s %s = %s' % (n, t, init.render()))
         genv.add(t, n)
@@ -2500,7 +2517,7 @@ def _g_idioms(self, grp, env):
                          'println("embptr", %sb.v, %sx.v, %sy.v, %sx.w, %sy.w, %sx.%sBase == %sy.%sBase)' % (u, u, u, u, u, u, P, u, P)], [T(), T(), T()]))
         elif k == 'assert_fail_zero':
             st.append(S(['var %se interface{} = {0}' % u, '%sa, %sok1 := %se.(%s)' % (u, u, u, t), '%sb, %sok2 := %se.(float64)' % (u, u, u), '%sc, %sok3 := %se.(bool)' % (u, u, u),
-                         # (a failed `v, ok := e.(string)` yields the string "0" in Wa: see FINDINGS; not used here)
+                         # (a failed `v, ok := e.(string)` yields the string "0" in Wa: see gen/findings.py; not used here)
                          'println("assertzero", %sa, %sok1, %sb == 0, %sok2, %sc, %sok3)' % (u, u, u, u, u, u)], [self.nonconst(env, t, T())]))
         elif k == 'copy_string_bytes':
             st.append(S(['%sb := make([]byte, 4)' % u, '%sn := copy(%sb, {0})' % (u, u), '%sm := copy(%sb[1:], "zz")' % (u, u), 'println("copystr", %sn, %sm, %sb[0], %sb[1], %sb[3], hashStr(string(%sb)))' % (u, u, u, u, u, u)],
